@@ -82,7 +82,7 @@ structure Env (α β : Type) where
   half : β
   /-- `std::f64::consts::PI` -/
   pi : β
-  /-- the literal `1E-325` (which is `0.0` as an `f64`) -/
+  /-- the literal `5E-324` of the overflow guard (smallest positive `f64`; it was `1E-325` = `0.0` before the repair) -/
   tiny : β
   ln : β → β
   exp : β → β
